@@ -38,8 +38,19 @@ def build_harness():
     t0 = time.time()
     env = dict(os.environ)
     env["CARGO_NET_OFFLINE"] = "true"
+    lock = None
+    if not os.environ.get("VERIF_REPO_LOCK_HELD"):
+        # bin/seedtest holds this lock while a seeded change is applied to /repo: never build from such a tree
+        try:
+            import fcntl
+            lock = open(os.path.join(SCRATCH_ROOT, "nomt-verif-repo.lock"), "w")
+            fcntl.flock(lock, fcntl.LOCK_EX)
+        except OSError:
+            lock = None
     p = subprocess.run(["cargo", "build", "--release", "--offline"], cwd=HARNESS, env=env,
                        stdout=subprocess.PIPE, stderr=subprocess.STDOUT, text=True)
+    if lock:
+        lock.close()
     if p.returncode != 0:
         log(p.stdout[-6000:])
         raise ToolError("harness build failed (cargo exit %d)" % p.returncode)
